@@ -17,9 +17,15 @@
 import MdModel.DumpCtx
 import MdModel.DumpText
 import MdModel.DumpMisc
+import MdModel.DumpMiscInfo
+import MdModel.DumpMaps
+import MdModel.DumpUnified
+import MdModel.DumpIds
+import MdModel.DumpRegs
 namespace MdModel.Dump
 open MdModel
 open MdModel.Gen.LayoutsX
+open MdModel.Gen.LayoutsC02 (ST_MiscInfoStream ST_LinuxMaps)
 
 structure Extra where
   sys : Except Err SysInfo
@@ -116,5 +122,116 @@ def readFull (ms : MemSizes) (b : Bytes) : M (Except Err Full) :=
   match r with
   | .error er => pure (.error er)
   | .ok p => readExtra b p >>= fun x => pure (.ok ⟨p, x⟩)
+
+/-! ## the third group (`readMore`): what was only sampled until round 4
+
+    * `MinidumpMiscInfo` with its accessors and printer (MdModel.DumpMiscInfo),
+    * `MinidumpLinuxMaps` (MdModel.DumpMaps): the reader — which PANICS on hostile lines, the open
+      finding C01-procfs-mmappath —, its lookup table, `memory_info_at_address` around every entry,
+    * `UnifiedMemoryInfoList` over the memory-info list and the maps (MdModel.DumpUnified),
+    * `os_parts`, the `Module` identifier accessors and `print` of every module, the unloaded
+      modules' code identifiers, the soft-errors stream (MdModel.DumpIds),
+    * the register accessors (`valid_registers`, `get_register`, `format_register`, `register_size`)
+      of every thread's and the exception's context, through C18's tables (MdModel.DumpRegs).
+
+  `readWhole` = `readFull` then `readMore` is what the driver runs. -/
+
+/-- `std::panic::catch_unwind` as the harness applies it to ONE operation: a panic outcome becomes
+    the value `.error site`, so that the remaining operations can still be rendered. The property
+    counts the panic whoever catches it: the theorems are about `readWholeWith false`. -/
+def M.catchUnwind {α : Type} (x : M α) : M (Except String α) :=
+  match x.res with
+  | .ok a => ⟨.ok (.ok a), x.allocs⟩
+  | .err e => ⟨.err e, x.allocs⟩
+  | .panic s => ⟨.ok (.error s), x.allocs⟩
+
+/-- what the engine compares of a Linux-maps stream -/
+structure MapsOut where
+  maps : LinuxMapsX
+  /-- `memory_info_at_address` at both ends of every entry and next to them: the index served -/
+  probes : List (Nat × Option Nat)
+
+/-- `get_stream::<MinidumpLinuxMaps>` followed by the lookups -/
+def readMapsOutG (guarded : Bool) (s : Bytes) : M MapsOut :=
+  readLinuxMapsG guarded s >>= fun m =>
+  mapsProbes m (mapsProbeAddrs m.entries) >>= fun ps =>
+  pure ⟨m, ps⟩
+
+/-- … of the repository under test (`MAPS_GUARDED` is set by translators/maps_guard.py) -/
+def readMapsOut (s : Bytes) : M MapsOut := readMapsOutG MdModel.Gen.MapsGuard.MAPS_GUARDED s
+
+structure More where
+  misc : Except Err MiscPrinted
+  /-- `.error site`: the panic of the operation, caught (render mode only) -/
+  maps : Except String (Except Err MapsOut)
+  /-- `UnifiedMemoryInfoList::new(..)` and its accessors; `.error site`: building it needs
+      `get_stream::<MinidumpLinuxMaps>()`, whose panic propagates -/
+  unified : Except String (Option UnifiedOut)
+  /-- `os_parts()` (`none`: no system info) -/
+  osParts : Option (List Nat × Option (List Nat))
+  /-- per module of the module list: the four identifier accessors and what `print` adds -/
+  modules : Option (List ModOut)
+  /-- `code_identifier()` of every unloaded module -/
+  unloaded : Option (List String)
+  softErrors : Except Err Nat
+  /-- per thread: the register accessors of its context (`none`: no thread list or no system info) -/
+  regs : Option (List (Option RegsOut))
+  /-- the same for the exception's context -/
+  excRegs : Option (Option RegsOut)
+
+/-- one operation, wrapped in `catch_unwind` in render mode -/
+def guarded {α : Type} (caught : Bool) (x : M α) : M (Except String α) :=
+  if caught then M.catchUnwind x else x >>= fun a => pure (.ok a)
+
+/-- `caught` = render mode (see `M.catchUnwind`): only the Linux-maps operation can panic -/
+def readMore (caught : Bool) (b : Bytes) (f : Full) : M More :=
+  let d := f.base.dump
+  let e := d.endian
+  getStream d b ST_MiscInfoStream (fun s => readMiscInfoX s e) >>= fun misc =>
+  guarded caught (getStream d b ST_LinuxMaps readMapsOut) >>= fun maps =>
+  let infoOpt := match f.base.memInfo with
+    | .ok is => some is
+    | .error _ => none
+  (match maps with
+   | .error site => pure (.error site)
+   | .ok r =>
+     let mapsOpt := match r with
+       | .ok mo => some mo.maps
+       | .error _ => none
+     unifiedOut infoOpt mapsOpt >>= fun u => pure (.ok u)) >>= fun unified =>
+  let osp := match f.extra.sys with
+    | .ok si => some (osPartsOf si)
+    | .error _ => none
+  let os := match f.extra.sys with
+    | .ok si => Encode.osOfPlatform si.platform
+    | .error _ => Encode.Os.unknown
+  (match f.base.modules with
+   | .ok ms => modulesOut os e ms >>= fun r => pure (some r)
+   | .error _ => pure none) >>= fun modules =>
+  let unloaded := match f.base.unloaded with
+    | .ok us => some (us.map unloadedIds)
+    | .error _ => none
+  getStream d b ST_MozSoftErrors readSoftErrors >>= fun soft =>
+  (match f.base.threads, f.extra.sys with
+   | .ok ts, .ok si => threadRegisters b e si.arch ts >>= fun r => pure (some r)
+   | _, _ => pure none) >>= fun regs =>
+  (match f.base.exception, f.extra.sys with
+   | .ok x, .ok si => registersOf b e si.arch x.context >>= fun r => pure (some r)
+   | _, _ => pure none) >>= fun excRegs =>
+  pure { misc := misc, maps := maps, unified := unified, osParts := osp, modules := modules, unloaded := unloaded,
+         softErrors := soft, regs := regs, excRegs := excRegs }
+
+structure Whole where
+  full : Full
+  more : More
+
+def readWholeWith (caught : Bool) (ms : MemSizes) (b : Bytes) : M (Except Err Whole) :=
+  readFull ms b >>= fun r =>
+  match r with
+  | .error er => pure (.error er)
+  | .ok f => readMore caught b f >>= fun m => pure (.ok ⟨f, m⟩)
+
+/-- `readFull`, then the third group: the function the theorems of MdProofs.C01 §12-16 are about -/
+def readWhole (ms : MemSizes) (b : Bytes) : M (Except Err Whole) := readWholeWith false ms b
 
 end MdModel.Dump
